@@ -8,6 +8,8 @@
 import LLFreeV.Gen.Tree
 import LLFreeV.Gen.Local
 import LLFreeV.Gen.Huge
+import LLFreeV.Gen.Policy
+import LLFreeV.Model.Policies
 import LLFreeV.Model.Lower
 import LLFreeV.Model.Trees
 import LLFreeV.Model.Locals
@@ -314,5 +316,22 @@ theorem hinc_eq (len e n : Nat) (hn : n ≤ len) : Sim (ofRON (Gen.H.inc len e n
   · simp [hn', ofRON, bind, Except.bind, pure, Except.pure]
 
 end
+
+/-! ### the built-in policies (`Gen/Policy.lean`) -/
+
+theorem simple_eq (tf : Nat) : Gen.P.simple tf = simplePolicy tf := by
+  funext r t f
+  unfold Gen.P.simple simplePolicy orderedPolicy
+  by_cases h1 : r > t <;> by_cases h2 : r < t <;> by_cases h3 : f ≥ tf / 2 <;> by_cases h4 : f ≥ tf / 64 <;> simp [h1, h2, h3, h4]
+
+theorem movable_eq (tf : Nat) : Gen.P.movable tf = movablePolicy tf := by
+  funext r t f
+  unfold Gen.P.movable movablePolicy orderedPolicy
+  by_cases h1 : r > t <;> by_cases h2 : r < t <;> by_cases h3 : f ≥ tf / 2 <;> by_cases h4 : f ≥ tf / 64 <;> simp [h1, h2, h3, h4]
+
+theorem eval_eq (pmin pmax gmin gmax : Nat) : Gen.P.eval pmin pmax gmin gmax = evalPolicy pmin pmax gmin gmax := by
+  funext r t f
+  unfold Gen.P.eval evalPolicy orderedPolicy
+  by_cases h1 : r > t <;> by_cases h2 : r < t <;> simp [h1, h2]
 
 end LLFree.GenTree
